@@ -114,6 +114,7 @@ Step(e) ==
     [] e.ev = "W_Return"     -> IF e.res = "ok" THEN W_Return ELSE wres = "err" /\ Stutter
     [] e.ev = "Crash"        -> IF wpc = "idle" THEN Stutter ELSE Crash
     [] e.ev = "Fault"        -> Fault(0)
+    [] e.ev = "TornWrite"    -> Fault(e.k)
     [] e.ev = "Observe"      -> Stutter /\ PrintT(<<"INFO", ToJson(Verdict(e))>>)
 
 TraceInit == Init /\ l = 1 /\ rstart = <<>> /\ qnometa = FALSE
